@@ -25,7 +25,7 @@ ASSUMPTIONS = [
     "when an override is given only the file span is compared, not the per-tier xmin/xmax header (the statement fixes the file span)",
     "minimumIntervalLength=None (sliver absorption is C04)",
 ]
-REQUIRED_CLASSES = ["wellformed:format_token", "wellformed:quote", "wellformed:gap_filled", "wellformed:override"]
+REQUIRED_CLASSES = ["wellformed:tiers_with_own_span", "wellformed:format_token", "wellformed:quote", "wellformed:gap_filled", "wellformed:override"]
 
 
 def run_case(case):
@@ -49,6 +49,9 @@ def run_case(case):
                 cl.add("format_token")
             if "\n" in s:
                 cl.add("newline")
+    clean = all((t["minT"], t["maxT"]) == (spec["minT"], spec["maxT"]) for t in spec["tiers"])
+    if not clean:
+        cl.add("tiers_with_own_span")
     decoded = {}
     for blanks in (True, False):
         for fmt in FORMATS:
@@ -67,7 +70,9 @@ def run_case(case):
                     if len(t["entries"]) > n0:
                         cl.add("gap_filled")
             try:
-                iomodel.compare_data(got, want, what, json_single_span=(fmt == "json"), check_tier_spans=not kw)
+                # tiers with their own span + blank filling: the tier is filled up to the file span (the partition
+                # clause below); its xmin/xmax header is not pinned by the statement in that case
+                iomodel.compare_data(got, want, what, json_single_span=(fmt == "json"), check_tier_spans=not kw and (clean or not blanks))
             except Violation as v:
                 raise Violation(f"{v.clause}:{fmt}", v.message)
             if blanks:
@@ -96,9 +101,10 @@ def run_case(case):
 
 @st.composite
 def cases(draw):
-    spec = draw(gen.io_textgrid(clean=True, token_rate=2))
+    clean = draw(st.integers(0, 4)) > 0
+    spec = draw(gen.io_textgrid(clean=clean, token_rate=2))
     case = {"tg": spec, "min_override": None, "max_override": None}
-    r = draw(st.integers(0, 5))
+    r = draw(st.integers(0, 5)) if clean else 5
     if r in (0, 1):
         case["max_override"] = draw(st.sampled_from([spec["maxT"], spec["maxT"] + 1.0, spec["maxT"] * 2 + 0.5]))
         if not case["max_override"] >= spec["maxT"]:
